@@ -101,7 +101,7 @@ def check(prop, tier):
     viols = [dict(v, sig=sig_of(v)) for v in res["violations"]]
     cov = {"states": res["design"]["distinct"], "transitions": res["design"]["generated"],
            "traces_validated_against_impl": res["calls"], "samples": res["samples"],
-           "evaluations": res["calls"], "rebuild_reason_cases": res.get("reason_cases", 0), "distinct_nontrivial": res["distinct_pairs"], "exhaustive": True,
+           "evaluations": res["calls"], "rebuild_reason_cases": res.get("reason_cases", 0), "rebuild_reasons_on_pairs_of_real_functions": res.get("real_function_pairs", 0), "distinct_nontrivial": res["distinct_pairs"], "exhaustive": True,
            "rule": "all pairs of strings, bytes, tuples and lists over {a,b,c} of length 0..3 (quick) / 0..4 (thorough), nested and mixed-kind variants, dicts over <=3 keys, seeded random longer sequences; distinct = distinct (old, new) pairs",
            "family_wall_s": round(res["wall_s"], 1)}
     assumptions = ["Starlark equality is structural equality on the value classes enumerated (no floats)"]
